@@ -241,6 +241,7 @@ def fam_concat_zero(ctx):
             ops.append(s)
         cases.append({"axis": axis, "ops": ops})
     lits, meta = [], []
+    accept_more = None      # first (case, binding) that onnx.reference rejects for the original and accepts after an operand was dropped
     stats = {"bindings": 0, "executed": 0, "rejected_by_original": 0, "changed": 0, "optimized_accepts_what_reference_rejects": 0}
     for case in cases:
         ops, axis = case["ops"], case["axis"]
@@ -281,6 +282,8 @@ def fam_concat_zero(ctx):
                 stats["rejected_by_original"] += 1
                 if a2[0] != "ok" and obs is not None and r_new.run_ref(feeds)[0] == "ok":
                     stats["optimized_accepts_what_reference_rejects"] += 1
+                    if accept_more is None:
+                        accept_more = (case, b)
                 continue
             stats["executed"] += 1
             bb, b2 = r_new.run_ort(feeds), r_new.run_ref(feeds)
@@ -288,17 +291,24 @@ def fam_concat_zero(ctx):
                 ctx.violation("C09:concat-zero-operand:result-differs", f"Concat{ops} axis={axis}: optimize() changed the result at {b}",
                               {"family": "concat-zero", "case": case, "binding": b})
                 break
-    # model: None = kept; Some [] = Identity(inputs[0]) (observed as [0]); Some l = the operands at positions l
+    # two variants of the evaluator (Shape/Extra.v): shipped (every operand annotated 0 on the axis is dropped; refuted for
+    # "accepts exactly") and repaired (dropped only when its other dims are known equal to those of a kept reference operand)
     val = _eval_bad(ctx, ["OV.Shape.SymDim", "OV.Shape.Extra"],
-                    f"Definition cases : list concat_case := {clist(lits)}.\n"
-                    "Definition norm (c : concat_case) : concat_case := let '(ax, ops, obs) := c in (ax, ops, obs).\n"
-                    "Eval vm_compute in (disagreeing (fun c => let '(ax, ops, obs) := c in "
-                    "opt_nats_eqb (match concat_decision ax ops with Some nil => Some (cons O nil) | d => d end) obs) 0 cases).", "concat-zero")
-    bad = common.parse_nat_list(val) if val is not None else None
-    for k in bad or []:
-        ctx.tie_broken("correspondence", "concat-zero", f"{meta[k][0]}: operands kept by optimize() = {meta[k][1]}, Coq concat_decision differs")
-    ctx.obligation("correspondence concat-zero: operands of Concat kept by the real optimize() = Coq concat_decision (int 0 on the axis dropped; "
-                   "symbolic / unknown / out-of-range never) on every generated instance", bad == [])
+                    f"Definition cases : list concat_case := {clist(lits)}.\nEval vm_compute in (code_report concat_code 0 cases).", "concat-zero")
+    corr, variant = False, None
+    if val is not None:
+        rep = {int(a_): int(b_) for a_, b_ in re.findall(r"\((\d+)(?:%nat)?,\s*(\d+)(?:%nat)?\)", val)}
+        g = {1: [], 2: [], 3: []}
+        for k, code in sorted(rep.items()):
+            g[code].append(k)
+        corr = not g[3]
+        for k in g[3]:
+            ctx.tie_broken("correspondence", "concat-zero", f"{meta[k][0]}: operands kept by optimize() = {meta[k][1]}: neither the shipped nor the repaired Coq concat_decision")
+        if g[1] and g[2]:
+            corr = False
+            ctx.tie_broken("correspondence", "concat-zero", f"implementation follows the shipped evaluator on {meta[g[1][0]][0]} and the repaired one on {meta[g[2][0]][0]}")
+        variant = "shipped" if g[1] else ("repaired" if g[2] else None)
+        ctx.cover(concat_zero_agree_only_shipped=len(g[1]), concat_zero_agree_only_repaired=len(g[2]))
     # witness of C09_concat_drop_accepts_exactly_refuted on the real code: x:[N,0], y:[M,2], axis=1 at N=2, M=3
     host = _model([helper.make_node("Concat", ["x", "y"], ["out"], axis=1)], [_vi("x", T, ["N", 0]), _vi("y", T, ["M", 2])], [_vi("out", T, [None, None])])
     new = optimizer.optimize(host)
@@ -307,15 +317,31 @@ def fam_concat_zero(ctx):
     o_ref, n_ref, o_ort, n_ort = r_old.run_ref(feeds), r_new.run_ref(feeds), r_old.run_ort(feeds), r_new.run_ort(feeds)
     replayed = o_ref[0] != "ok" and n_ref[0] == "ok"
     dropped = "Concat" not in [nd.op_type for nd in new.graph.node]
-    ctx.obligation("replay of C09_concat_drop_accepts_exactly_refuted on the real code: optimize() drops the operand annotated [N,0]; either the "
-                   "reference evaluator rejects x:[2,0], y:[3,2] for the original and accepts it for the optimized model (finding), or the operand is no longer dropped",
-                   replayed or not dropped, f"original ref={o_ref[0]} ort={o_ort[0]}; optimized ref={n_ref[0]} ort={n_ort[0]}; dropped={dropped}")
+    if variant is None:
+        variant = "shipped" if dropped else "repaired"
+    if (variant == "shipped") != dropped:
+        corr = False
+        ctx.tie_broken("correspondence", "concat-zero", f"generated instances say the evaluator is the {variant} one, the witness model says dropped={dropped}")
+    if variant == "shipped" and not (replayed or accept_more):
+        corr = False
+        ctx.tie_broken("correspondence", "concat-zero", "implementation drops operands whose other dims are not known to match (refuted by "
+                       "C09_concat_drop_accepts_exactly_refuted) but the witness does not replay: "
+                       f"original ref={o_ref[0]} ort={o_ort[0]}; optimized ref={n_ref[0]} ort={n_ort[0]}")
+    ctx.obligation("correspondence concat-zero: operands of Concat kept by the real optimize() = Coq concat_decision on every generated instance "
+                   "(repaired evaluator: C09_concat_drop_fixed_accepts_exactly; or the shipped one, whose refutation C09_concat_drop_accepts_exactly_refuted "
+                   "is then replayed on the real code)", corr)
+    ctx.cover(concat_zero_evaluator_is=("shipped (refuted for 'accepts exactly')" if variant == "shipped" else "repaired"))
     if replayed and dropped:
         ctx.violation("C09:concat-zero-operand:shape-check-of-dropped-operand-lost",
                       "Concat(x:[N,0], y:[M,2], axis=1): the operand with the static 0 is dropped, and with it the requirement N = M: "
                       "x:[2,0], y:[3,2] is rejected by onnx.reference for the original model and accepted after optimize() "
                       f"(onnxruntime accepts both: original {o_ort[0]}, optimized {n_ort[0]})",
                       {"family": "concat-zero", "case": {"axis": 1, "ops": [["N", 0], ["M", 2]]}, "binding": {"N": 2, "M": 3}})
+    elif accept_more:
+        case, b = accept_more
+        ctx.violation("C09:concat-zero-operand:shape-check-of-dropped-operand-lost",
+                      f"Concat{case['ops']} axis={case['axis']}: an operand was dropped and at {b} onnx.reference rejects the original model but accepts the optimized one",
+                      {"family": "concat-zero", "case": case, "binding": b})
     ctx.cover(concat_zero_instances=len(lits), concat_zero_oracle=stats)
 
 
